@@ -11,6 +11,8 @@ import (
 	"sort"
 	"strings"
 
+	aevid "github.com/Oneledger/protocol/action/evidence"
+
 	"olverif/harness/rng"
 )
 
@@ -129,6 +131,9 @@ func paramsFor(r *rng.R, seed uint64) Params {
 	p.BlockVotesDiff = int64(2 + r.Intn(3))
 	p.MinVotesReq = int64(1 + r.Intn(3))
 	p.Witnesses = r.Intn(p.NVals + 1)
+	if r.Intn(3) == 0 {
+		p.GenesisMatures = 2 + r.Intn(4)
+	}
 	return p
 }
 
@@ -209,6 +214,10 @@ func RunTwin(opt TwinOptions) (*Result, error) {
 
 func runOneHistory(opt TwinOptions, c int, r *rng.R, res *Result, hl *HistoryLog) (bool, error) {
 	p := paramsFor(r, opt.Seed*1000+uint64(c))
+	doubleVerdict := opt.Mode == ModeTwin && c%4 == 3
+	if doubleVerdict {
+		p.NVals, p.TopValidators, p.MinSelfDeleg = 5, 5, 1
+	}
 	w := NewWorld(p)
 	hl.Add("genesis seed=%d vals=%d cand=%d top=%d minself=%d maturity=%d fund=%d vote=%d rint=%d cycle=%d vdiff=%d minvotes=%d witnesses=%d",
 		p.Seed, p.NVals, p.NCandidates, p.TopValidators, p.MinSelfDeleg, p.StakeMaturity, p.FundingDeadline, p.VotingDeadline, p.RewardInterval, p.BlockSpeedCycle, p.BlockVotesDiff, p.MinVotesReq, p.Witnesses)
@@ -241,6 +250,10 @@ func runOneHistory(opt TwinOptions, c int, r *rng.R, res *Result, hl *HistoryLog
 	sim := NewSim(w)
 	g := NewGen(w, r.Fork())
 	wt := AllWeights()
+	var script func(g *Gen, h int64) []GenTx
+	if doubleVerdict {
+		script = doubleVerdictScript
+	}
 	okTx, hook, failedWithOk, injectedOK, midCrash := 0, 0, 0, 0, 0
 	var future [][]byte
 	for bi := 0; bi < opt.Blocks; bi++ {
@@ -252,6 +265,14 @@ func runOneHistory(opt TwinOptions, c int, r *rng.R, res *Result, hl *HistoryLog
 			t := g.Next(wt)
 			gts = append(gts, t)
 			txs = append(txs, t.Bytes)
+		}
+		// scripted scenario (every 4th history in twin mode): two allegations opened in block 4, all
+		// votes cast in block 5, so that two verdicts are reached in the same block end
+		if script != nil {
+			for _, t := range script(g, sim.Height+1) {
+				gts = append(gts, t)
+				txs = append(txs, t.Bytes)
+			}
 		}
 		// occasionally resubmit an old tx (exercises the index short-circuit)
 		if len(future) > 0 && r.Intn(6) == 0 {
@@ -452,6 +473,10 @@ func runOneHistory(opt TwinOptions, c int, r *rng.R, res *Result, hl *HistoryLog
 	}
 	if len(sim.TMErrors) > 0 {
 		res.Counters["tm_rejected_updates"] += len(sim.TMErrors)
+		if os.Getenv("OLH_SHOW_TM") != "" {
+			hl.Add("TM: %s", strings.Join(sim.TMErrors, " | "))
+			res.Hit("tm-rejected-updates", c, strings.Join(sim.TMErrors, " | "), hl.Lines)
+		}
 	}
 	switch opt.Mode {
 	case ModeDropFailed:
@@ -462,4 +487,26 @@ func runOneHistory(opt TwinOptions, c int, r *rng.R, res *Result, hl *HistoryLog
 		return midCrash > 0, nil
 	}
 	return okTx > 0 && hook > 0, nil
+}
+
+// doubleVerdictScript opens allegations against validators 3 and 4 in block 4 and has validators
+// 0, 1 and 2 vote yes on both in block 5.
+func doubleVerdictScript(g *Gen, h int64) []GenTx {
+	var out []GenTx
+	v := g.W.Vals
+	switch h {
+	case 4:
+		for i, m := range []int{3, 4} {
+			id := fmt.Sprintf("dv-%d-%d", g.W.P.Seed, i)
+			out = append(out, g.mk("ALLEGATION", "script", &aevid.Allegation{RequestID: id, ValidatorAddress: v[0].Key.Addr, MaliciousAddress: v[m].Key.Addr, BlockHeight: 3, ProofMsg: "p"}, v[0].Key))
+		}
+	case 5:
+		for i := range []int{3, 4} {
+			id := fmt.Sprintf("dv-%d-%d", g.W.P.Seed, i)
+			for _, voter := range []int{0, 1, 2} {
+				out = append(out, g.mk("ALLEGATION_VOTE", "script", &aevid.AllegationVote{RequestID: id, Address: v[voter].Key.Addr, Choice: 1}, v[voter].Key))
+			}
+		}
+	}
+	return out
 }
